@@ -138,6 +138,7 @@ func runC01(e *Env) {
 			c01Compare(e, it.p, it.src, it.go_, reps[i])
 			c01CompareCode(e, it.p, it.src, creps[i])
 			c01ParseCheck(e, it.p, it.src)
+			c01FragCheck(e, it.p, it.src)
 			// the Lean VM model on the Lean-compiled bytecode against the real run
 			vf := strings.Split(vreps[i], "\t")
 			switch {
